@@ -122,6 +122,11 @@ def handleGH (op : String) (args : List String) : String :=
     match parseNat b, parseNat l, parseRat x, parseRat y with
     | some b, some l, some x, some y => showExcept showHash (encodeCoord b x y l)
     | _, _, _, _ => "bad-op"
+  | "enczm", [b, l, x, y, _z, _m] =>
+    -- a coordinate that carries Z and/or M (`-` = absent): the geohash is that of its longitude / latitude
+    match parseNat b, parseNat l, parseRat x, parseRat y with
+    | some b, some l, some x, some y => showExcept showHash (encodeCoord b x y l)
+    | _, _, _, _ => "bad-op"
   | "rt", [b, l, x, y] =>
     match parseNat b, parseNat l, parseRat x, parseRat y with
     | some b, some l, some x, some y => roundTrip b l x y
